@@ -381,7 +381,7 @@ func shuffled[T any](r *rng, xs []T) []T {
 }
 
 var (
-	wfStrPool   = []string{"a", "b", "c", "+", "-", "*", "(", ")", "if", "then", "else", ";", "=", "{{", "<=", "&&", "!", ",", ".", "[", "]"}
+	wfStrPool   = []string{"a", "b", "c", "+", "-", "*", "(", ")", "if", "then", "else", ";", "=", "{{", "<=", "&&", "!", ",", ".", "[", "]", `\\n`, "n", `\\t`, "t", `\\`, `\"`, `\\\\`}
 	wfTokStr    = []string{"while", "do", "end", "::", "=>", "%", "begin"}
 	wfTokRegex  = []string{`[a-z]+`, `[0-9]+`, `"[^"]*"`, `[A-Z][0-9A-Z_]*`, `0x[0-9A-F]+`, `#[a-z]*`, `\x2F\x2F[a-z ]*`}
 	wfTokPredef = []string{"$WS", "$DIGIT", "$LETTER", "$ID", "$NUMBER", "$STRING", "$COMMENT"}
